@@ -67,6 +67,9 @@ EDITS = {
         ("vs07", "crates/lib/mimium-lang/src/runtime/vm.rs", "            if self.global_states.rawdata.len() < main_size {\n                self.global_states.resize(main_size);\n            }\n", "            self.global_states.resize(main_size);\n", "verus", "vm_storage"),
         ("vs04", "crates/lib/mimium-lang/src/compiler/wasmgen.rs", "            self.mir.functions[mir_fn_idx].state_skeleton.total_size()", "            self.mir.functions[mir_fn_idx].state_skeleton.total_size().max(1)", "verus", "backend_state"),
         ("vs05", "crates/lib/mimium-lang/src/compiler/wasmgen.rs", "        func.instruction(&W::I64Const(state_size as i64));\n        func.instruction(&W::Call(self.rt.closure_state_push));", "        func.instruction(&W::I64Const(64));\n        func.instruction(&W::Call(self.rt.closure_state_push));", "verus", "backend_state"),
+        ("sg01", "crates/lib/mimium-lang/src/runtime/wasm.rs", "        let pos = current.pos;\n        let needed = pos + size;\n        if needed > current.data.len() {", "        let pos = current.pos;\n        let needed = pos + size + 1;\n        if needed > current.data.len() {", "verus", "wasm_state"),
+        ("sg02", "crates/lib/mimium-lang/src/runtime/wasm.rs", "    // Grow data if needed\n    if needed > current.data.len() {\n        current.data.resize(needed, 0);", "    // Grow data if needed\n    if needed >= current.data.len() {\n        current.data.resize(needed + 1, 0);", "verus", "wasm_state"),
+        ("sg03", "crates/lib/mimium-lang/src/runtime/wasm.rs", "        current.data[pos..pos + size].to_vec()", "        current.data[pos + 1..pos + size].to_vec()", "verus", "wasm_state"),
         ("cs01", "crates/lib/mimium-lang/src/runtime/wasm.rs", "        cls_state.pos = 0;\n    }\n    state.state_stack.pop();", "        cls_state.pos = 0;\n    }", "verus", "wasm_state"),
         ("cs02", "crates/lib/mimium-lang/src/runtime/wasm.rs", "        .or_insert_with(|| StateStorage::with_size(state_size as usize));", "        .or_insert_with(|| StateStorage::with_size(1));", "verus", "wasm_state"),
         ("cs03", "crates/lib/mimium-lang/src/runtime/wasm.rs", "    state.state_stack.push(closure_addr);\n    // Lazily allocate", "    // Lazily allocate", "verus", "wasm_state"),
